@@ -99,6 +99,10 @@ class World(object):
         return c
 
 
+WORD_TEXTS = ['abc', '-0.5', '-1e-3', '-.9', '0.5', '1.0']
+_WORDS = [0]
+
+
 def tok(t):
     """python token -> TLA record.  ints, 'huge', 'neghuge', 'word'"""
     if isinstance(t, int):
@@ -113,7 +117,12 @@ def tokset(ts):
 def tok_text(t):
     if isinstance(t, int):
         return str(t)
-    return {'huge': HUGE_TXT, 'neghuge': '-' + HUGE_TXT, 'word': 'abc'}[t]
+    if t == 'word':
+        # identifiers that are not whole numbers: a word, and numbers with a fraction or an exponent (whoever parses them
+        # leniently - int(float(..)) - truncates -0.5 to the valid index 0)
+        _WORDS[0] += 1
+        return WORD_TEXTS[_WORDS[0] % len(WORD_TEXTS)]
+    return {'huge': HUGE_TXT, 'neghuge': '-' + HUGE_TXT}[t]
 
 
 def tok_from_tla(r):
